@@ -131,3 +131,13 @@ CLAIMS["C05"] = (
     "certificate of the current problem, caller's Xw == X w + b, optimality-gap theorem against the cold start / a fresh estimator.",
     "Trusted: mc/ref certificate and objective. Depth-bounded (closure is reported when reached). Gap theorem only for convex problems.",
     "DESIGN.md §4 C05")
+CLAIMS["C18"] = (
+    "model_checking",
+    "explicit-state breadth-first search over fit/path/set_params histories on groups of persistent estimators (states rebuilt by replay, canonical hashing of params and fitted attributes), differential against single fits in fresh worker processes",
+    "7 groups of 2-3 estimators sharing compiled classes x 2-4 datasets of different shapes, containers and dtypes; every history "
+    "of fit / path / set_params operations up to depth 3 (4 thorough) is replayed on fresh objects; after every operation the "
+    "bytes of X (incl. CSC buffers), y, weights, groups must be unchanged, and the attributes produced by fit(E params, D) must be "
+    "bit-identical under every history and identical to a single fit performed in a fresh worker process (one process per "
+    "reference fit).",
+    "The harness owns the only RNG (power method) by reseeding before every operation. Estimator budgets are capped (tol 1e-6).",
+    "DESIGN.md §4 C18")
